@@ -54,7 +54,7 @@ fn round_trip(k: &str, d: &str) -> Result<(), String> {
 /// a block reference of the given form (regular / wiki / piped wiki) to note `k` in a note of directory `d`:
 /// after export (formatting) the note still holds exactly one block reference and it resolves to `k`.
 /// The input url comes from the oracle's own `rel_url`, the output is read with the oracle's own reader.
-fn export_keeps_target(k: &str, d: &str, ext: &str, form: &str) -> Result<(), String> {
+fn export_keeps_target(k: &str, d: &str, ext: &str, form: &str, container: &str) -> Result<(), String> {
     use crate::oracle::md;
     let src_key = if d.is_empty() { "n".to_string() } else { format!("{}/n", d) };
     if src_key == k {
@@ -67,14 +67,21 @@ fn export_keeps_target(k: &str, d: &str, ext: &str, form: &str) -> Result<(), St
         _ => format!("[t]({})", link),
     };
     let mut state: HashMap<String, String> = HashMap::new();
-    state.insert(src_key.clone(), format!("# src\n\n{}\n", line));
+    // where the reference stands: at the top level, in a quote, in a quote inside a quote, as second block of a list item
+    let body = match container {
+        "quote" => format!("> {}\n", line),
+        "quote2" => format!("> > {}\n", line),
+        "item" => format!("- item\n\n  {}\n", line),
+        _ => format!("{}\n", line),
+    };
+    state.insert(src_key.clone(), format!("# src\n\n{}", body));
     // the target's title: a word of its own, or (regular references) the file name itself, so that the refreshed
     // link text equals the url written from the same directory
     let title = if form == "regular" && (k.len() + d.len()) % 2 == 0 { k.rsplit('/').next().unwrap_or(k).to_string() } else { "target".to_string() };
     state.insert(k.to_string(), format!("# {}\n", title));
     let graph = Graph::import(&state, MarkdownOptions { refs_extension: ext.to_string() });
     let out = graph.to_markdown(&Key::from_file_name(&src_key));
-    let links: Vec<_> = md::read(&out, d).links.into_iter().filter(|l| l.block_level).collect();
+    let links: Vec<_> = md::read(&out, d).links.into_iter().filter(|l| l.block_level || container != "top").collect();
     if links.len() != 1 {
         return Err(format!("note {:?}: {} written for {:?}: the export {:?} holds {} block references", src_key, line, k, out, links.len()));
     }
@@ -113,7 +120,7 @@ pub fn run(ctx: &Ctx, model: &mut Model, rep: &mut Report) {
         let g = |f: &str| v[f].as_str().unwrap_or("").to_string();
         let single = match v["kind"].as_str() {
             Some("round_trip") => Some(round_trip(&g("key"), &g("dir"))),
-            Some("export_reference") => Some(catch(|| export_keeps_target(&g("key"), &g("dir"), &g("ext"), &g("form"))).unwrap_or_else(|p| Err(format!("panic: {}", p)))),
+            Some("export_reference") => Some(catch(|| { let c = g("container"); export_keeps_target(&g("key"), &g("dir"), &g("ext"), &g("form"), if c.is_empty() { "top" } else { &c }) }).unwrap_or_else(|p| Err(format!("panic: {}", p)))),
             _ => None,
         };
         if let Some(r) = single {
@@ -251,12 +258,14 @@ pub fn run(ctx: &Ctx, model: &mut Model, rep: &mut Report) {
         for d in &gk {
             for ext in ["", ".md"] {
                 for form in ["regular", "wiki", "wikiPiped"] {
-                    oracle_cases += 1;
-                    rep.count(&format!("oracle_export_reference_{}", form));
-                    match catch(|| export_keeps_target(k, d, ext, form)) {
-                        Ok(Ok(())) => {}
-                        Ok(Err(e)) => rep.fail(json!({"kind": "export_reference", "key": k, "dir": d, "ext": ext, "form": form, "what": e})),
-                        Err(p) => rep.fail(json!({"kind": "export_reference", "key": k, "dir": d, "ext": ext, "form": form, "what": format!("panic: {}", p)})),
+                    for container in ["top", "quote", "quote2", "item"] {
+                        oracle_cases += 1;
+                        rep.count(&format!("oracle_export_reference_{}_{}", form, container));
+                        match catch(|| export_keeps_target(k, d, ext, form, container)) {
+                            Ok(Ok(())) => {}
+                            Ok(Err(e)) => rep.fail(json!({"kind": "export_reference", "key": k, "dir": d, "ext": ext, "form": form, "container": container, "what": e})),
+                            Err(p) => rep.fail(json!({"kind": "export_reference", "key": k, "dir": d, "ext": ext, "form": form, "container": container, "what": format!("panic: {}", p)})),
+                        }
                     }
                 }
             }
